@@ -48,7 +48,14 @@ def modules_of(pid):
     """Properties/<pid>*.lean (e.g. C02.lean, C02Parse.lean)"""
     d = os.path.join(LEAN, "Properties")
     out = []
+    # only files that are part of the committed framework (work in progress that is git-ignored is not an obligation yet)
+    try:
+        ig = subprocess.run(["git", "-C", VERIF, "ls-files", "--others", "--ignored", "--exclude-standard", "lean/Properties"], capture_output=True, text=True)
+        ignored = {os.path.basename(x) for x in ig.stdout.split() } if ig.returncode == 0 else set()
+    except Exception:
+        ignored = set()
     for f in sorted(os.listdir(d)):
+        if f in ignored: continue
         if f.endswith(".lean") and re.match(r"^%s([A-Z][A-Za-z]*)?\.lean$" % pid, f):
             out.append(f[:-5])
     return out
